@@ -7,13 +7,39 @@
 //!   mcsel <k|-> <num|-> <scaled|->   Collection::from_sigs(..).select -> retained row indices
 //!   mload <k|-> <num|-> <scaled|->   Collection::select, then sig_for_dataset(i).select per surviving row:
 //!                                    `<row>:<scaled the delivered sketch reports>` (`<row>:none` if nothing is delivered)
+//!
+//! Stream 4 (`case … conversions-of-sketches`): the derived sketches — whatever is made FROM a sketch
+//! created at s must report s as well.
+//!   conv <route> <s> <num>     a sketch created at scaled s with size bound num (and one hash), pushed
+//!                              through <route>; answer: the scaled value the derived sketch reports
+//!   convx <route> <s> <num>    same, answer `mh=<max_hash> num=<num>` of the derived sketch
+//!   convmh <route> <max_hash>  same for a sketch LOADED with an arbitrary max_hash (no scaled value it
+//!                              was "created at"): `mh=<max_hash> scaled=<scaled>` of the derived sketch
+//!   routes (v… starts from a KmerMinHash, t… from a KmerMinHashBTree):
+//!     v2t t2v t2vr             `From<KmerMinHash>`, `From<KmerMinHashBTree>`, `From<&KmerMinHashBTree>`
+//!     v2t2v t2v2t t2vr2t       there and back
+//!     vclone tclone            `Clone`
+//!     vserde tserde            serde_json round trip of the sketch
+//!     vsig tsig                wrapped as `Sketch::MinHash` / `Sketch::LargeMinHash` in a Signature, `sketches()[0]`
+//!     vsigjson tsigjson        that Signature through serde_json::to_string / Signature::from_reader
+//!     vcfirst tcfirst          that Signature through the C API `signature_first_mh`, read back through
+//!                              `kmerminhash_max_hash` / `kmerminhash_num`
+//!     cnew cpush               `kmerminhash_new` (+ `signature_push_mh`, `signature_first_mh`), same getters
+//!     cfp                      ComputeParameters(scaled = s, num_hashes = num) -> `Signature::from_params`
+//!                              -> `signature_first_mh`, same getters
+//!   (the C API has no `scaled` getter; bindings compute it from `kmerminhash_max_hash`, as the harness
+//!   does with `scaled_for_max_hash`)
 use sourmash::cmd::ComputeParameters;
 use sourmash::collection::Collection;
 use sourmash::encodings::HashFunctions;
+use sourmash::ffi::minhash::{kmerminhash_free, kmerminhash_max_hash, kmerminhash_new, kmerminhash_num, SourmashKmerMinHash};
+use sourmash::ffi::signature::{signature_first_mh, signature_free, signature_new, signature_push_mh, SourmashSignature};
+use sourmash::ffi::utils::{sourmash_err_clear, sourmash_err_get_last_code, ForeignObject};
+use sourmash::ffi::HashFunctions as FfiHashFunctions;
 use sourmash::manifest::{Manifest, Record};
 use sourmash::prelude::*;
 use sourmash::selection::Selection;
-use sourmash::signature::Signature;
+use sourmash::signature::{Signature, SigsTrait};
 use sourmash::sketch::minhash::{
     max_hash_for_scaled, scaled_for_max_hash, KmerMinHash, KmerMinHashBTree,
 };
@@ -103,6 +129,50 @@ fn gen(a: &Args) {
             o.op(&format!("{} {} {} {} {}", op, s, nh, mol, tr));
         }
     }
+    // stream 4: what is made FROM a sketch created at s reports s too
+    o.case("conversions-of-sketches");
+    let n = if thorough { 40_000 } else { 4_000 };
+    for i in 0..n {
+        let s = if i < 1500 {
+            i + 1
+        } else if r.chance(1, 12) {
+            *r.pick(&[1u64 << 31, (1u64 << 31) - 1, 1 << 30, 1_000_003, 65_536, 0])
+        } else {
+            r.range(1, 1 << 31)
+        };
+        let num = *r.pick(&[0u64, 1, 500]);
+        for route in ROUTES {
+            // a pure num sketch (s = 0) needs a num
+            let num = if s == 0 && num == 0 { 500 } else { num };
+            o.op(&format!("conv {} {} {}", route, s, num));
+        }
+        for _ in 0..3 {
+            let num = *r.pick(&[1u64, 500, 500, 2, u32::MAX as u64]);
+            o.op(&format!("conv {} {} {}", *r.pick(ROUTES), s, num));
+        }
+        o.op(&format!("convx {} {} {}", *r.pick(ROUTES), s.max(1), *r.pick(&[0u64, 1, 500])));
+        // model column only: sketches loaded with an arbitrary ceiling
+        let v = r.bits(64);
+        for _ in 0..2 {
+            let route = loop {
+                let x = *r.pick(ROUTES);
+                if !x.starts_with('c') {
+                    break x;
+                }
+            };
+            o.op(&format!("convmh {} {}", route, v));
+        }
+    }
+    for k in 0..64u32 {
+        for d in 0..3u64 {
+            let p = 1u64 << k;
+            for v in [p.wrapping_add(d), p.wrapping_sub(d)] {
+                for route in ["t2v", "t2vr", "v2t", "tcfirst", "vclone", "tsigjson"] {
+                    o.op(&format!("convmh {} {}", route, v));
+                }
+            }
+        }
+    }
     // stream 3: manifests and selection as consumers of the reported value: rows whose scaled is just
     // below / at / just above the request, multiples, num rows (reported scaled 0), rows with both;
     // requests carrying ksize + scaled, ksize + num, ksize + num + scaled (what the revindex C API
@@ -158,6 +228,145 @@ fn gen(a: &Args) {
         o.op(&format!("msel - {} -", n));
         o.op(&format!("msel {} - -", k));
         o.op(&format!("msel - 0 {}", req));
+    }
+}
+
+const ROUTES: &[&str] = &[
+    "v2t", "t2v", "t2vr", "v2t2v", "t2v2t", "t2vr2t", "vclone", "tclone", "vserde", "tserde", "vsig", "tsig", "vsigjson",
+    "tsigjson", "vcfirst", "tcfirst", "cnew", "cpush", "cfp",
+];
+
+/// (scaled, max_hash, num) a sketch reports
+fn rep_v(m: &KmerMinHash) -> (u64, u64, u32) {
+    (m.scaled(), m.max_hash(), m.num())
+}
+fn rep_t(m: &KmerMinHashBTree) -> (u64, u64, u32) {
+    (m.scaled(), m.max_hash(), m.num())
+}
+fn rep_sk(s: &Sketch) -> Result<(u64, u64, u32), String> {
+    match s {
+        Sketch::MinHash(m) => Ok(rep_v(m)),
+        Sketch::LargeMinHash(m) => Ok(rep_t(m)),
+        _ => Err("other-sketch".into()),
+    }
+}
+/// read a C handle back through the getters (the C API has no scaled getter), then free it
+unsafe fn rep_c(h: *mut SourmashKmerMinHash) -> Result<(u64, u64, u32), String> {
+    let code = sourmash_err_get_last_code() as u32;
+    if code != 0 || h.is_null() {
+        sourmash_err_clear();
+        return Err(format!("err code{}", code));
+    }
+    let mh = kmerminhash_max_hash(h);
+    let num = kmerminhash_num(h);
+    kmerminhash_free(h);
+    Ok((scaled_for_max_hash(mh), mh, num))
+}
+
+/// push a vector / tree sketch through a route
+fn derive(route: &str, v: Option<KmerMinHash>, t: Option<KmerMinHashBTree>) -> Result<(u64, u64, u32), String> {
+    let sig_of = |sk: Sketch| {
+        let mut sig = Signature::default();
+        sig.set_name("conv");
+        sig.push(sk);
+        sig
+    };
+    let first = |sig: &Signature| unsafe {
+        sourmash_err_clear();
+        rep_c(signature_first_mh(SourmashSignature::from_ref(sig)))
+    };
+    let sigjson = |sig: Signature| -> Result<(u64, u64, u32), String> {
+        let js = serde_json::to_string(&vec![sig]).map_err(|e| format!("err {:?}", e))?;
+        let back = Signature::from_reader(js.as_bytes()).map_err(|e| format!("err {:?}", e))?;
+        match back.first().map(|s| s.sketches()) {
+            Some(sk) if sk.len() == 1 => rep_sk(&sk[0]),
+            _ => Err("no-sketch".into()),
+        }
+    };
+    match (route, v, t) {
+        ("v2t", Some(v), _) => Ok(rep_t(&KmerMinHashBTree::from(v))),
+        ("t2v", _, Some(t)) => Ok(rep_v(&KmerMinHash::from(t))),
+        ("t2vr", _, Some(t)) => Ok(rep_v(&KmerMinHash::from(&t))),
+        ("v2t2v", Some(v), _) => Ok(rep_v(&KmerMinHash::from(KmerMinHashBTree::from(v)))),
+        ("t2v2t", _, Some(t)) => Ok(rep_t(&KmerMinHashBTree::from(KmerMinHash::from(t)))),
+        ("t2vr2t", _, Some(t)) => Ok(rep_t(&KmerMinHashBTree::from(KmerMinHash::from(&t)))),
+        ("vclone", Some(v), _) => Ok(rep_v(&v.clone())),
+        ("tclone", _, Some(t)) => Ok(rep_t(&t.clone())),
+        ("vserde", Some(v), _) => {
+            let js = serde_json::to_string(&v).unwrap();
+            serde_json::from_str::<KmerMinHash>(&js).map(|m| rep_v(&m)).map_err(|e| format!("err {:?}", e))
+        }
+        ("tserde", _, Some(t)) => {
+            let js = serde_json::to_string(&t).unwrap();
+            serde_json::from_str::<KmerMinHashBTree>(&js).map(|m| rep_t(&m)).map_err(|e| format!("err {:?}", e))
+        }
+        ("vsig", Some(v), _) => rep_sk(&sig_of(Sketch::MinHash(v)).sketches()[0]),
+        ("tsig", _, Some(t)) => rep_sk(&sig_of(Sketch::LargeMinHash(t)).sketches()[0]),
+        ("vsigjson", Some(v), _) => sigjson(sig_of(Sketch::MinHash(v))),
+        ("tsigjson", _, Some(t)) => sigjson(sig_of(Sketch::LargeMinHash(t))),
+        ("vcfirst", Some(v), _) => first(&sig_of(Sketch::MinHash(v))),
+        ("tcfirst", _, Some(t)) => first(&sig_of(Sketch::LargeMinHash(t))),
+        _ => Err("bad-op".into()),
+    }
+}
+
+fn conv_created(route: &str, s: u64, num: u32) -> Result<(u64, u64, u32), String> {
+    match route {
+        "cnew" => unsafe {
+            sourmash_err_clear();
+            rep_c(kmerminhash_new(s, 21, FfiHashFunctions::Murmur64Dna, 42, false, num))
+        },
+        "cpush" => unsafe {
+            sourmash_err_clear();
+            let h = kmerminhash_new(s, 21, FfiHashFunctions::Murmur64Dna, 42, false, num);
+            let sig = signature_new();
+            signature_push_mh(sig, h);
+            kmerminhash_free(h);
+            let r = rep_c(signature_first_mh(sig));
+            signature_free(sig);
+            r
+        },
+        "cfp" => unsafe {
+            let mut p = ComputeParameters::builder().build();
+            p.set_ksizes(vec![21, 31]);
+            p.set_scaled(s);
+            p.set_num_hashes(num);
+            let sig = Signature::from_params(&p);
+            sourmash_err_clear();
+            rep_c(signature_first_mh(SourmashSignature::from_ref(&sig)))
+        },
+        _ => {
+            if route.starts_with('v') {
+                let mut v = KmerMinHash::new(s, 21, HashFunctions::Murmur64Dna, 42, false, num);
+                v.add_hash(7);
+                derive(route, Some(v), None)
+            } else {
+                let mut t = KmerMinHashBTree::new(s, 21, HashFunctions::Murmur64Dna, 42, false, num);
+                t.add_hash(7);
+                derive(route, None, Some(t))
+            }
+        }
+    }
+}
+
+/// a sketch as `Deserialize` builds it from a document with this `max_hash` (kept as it is)
+fn conv_loaded(route: &str, mh: u64) -> Result<(u64, u64, u32), String> {
+    let js = format!(
+        "{{\"num\":0,\"ksize\":21,\"seed\":42,\"max_hash\":{},\"mins\":[],\"md5sum\":\"d41d8cd98f00b204e9800998ecf8427e\",\"molecule\":\"DNA\"}}",
+        mh
+    );
+    if route.starts_with('v') {
+        let v: KmerMinHash = serde_json::from_str(&js).map_err(|e| format!("err {:?}", e))?;
+        if v.max_hash() != mh {
+            return Err(format!("loaded {}", v.max_hash()));
+        }
+        derive(route, Some(v), None)
+    } else {
+        let t: KmerMinHashBTree = serde_json::from_str(&js).map_err(|e| format!("err {:?}", e))?;
+        if t.max_hash() != mh {
+            return Err(format!("loaded {}", t.max_hash()));
+        }
+        derive(route, None, Some(t))
     }
 }
 
@@ -246,6 +455,25 @@ fn step(st: &mut Vec<Signature>, ws: &[&str]) -> String {
             return match c.select(&msel_of(&ws[1..])) {
                 Ok(c) => row_ids(c.manifest().iter()),
                 Err(e) => format!("err {:?}", e),
+            };
+        }
+        "conv" | "convx" => {
+            let (s, num): (u64, u32) = (ws[2].parse().unwrap(), ws[3].parse().unwrap());
+            return match conv_created(ws[1], s, num) {
+                Ok((sc, mh, n)) => {
+                    if ws[0] == "conv" {
+                        sc.to_string()
+                    } else {
+                        format!("mh={} num={}", mh, n)
+                    }
+                }
+                Err(e) => e,
+            };
+        }
+        "convmh" => {
+            return match conv_loaded(ws[1], ws[2].parse().unwrap()) {
+                Ok((sc, mh, _)) => format!("mh={} scaled={}", mh, sc),
+                Err(e) => e,
             };
         }
         "mload" => {
